@@ -239,6 +239,30 @@ def execute(scenario: dict) -> dict:
             _natural_fault(faults, a.get("msg", ""))
             if aborting is None:
                 aborting = a
+    # ---- accounting on each alone world itself (the reference must obey the property too):
+    # a failing rule contributes no query and exactly one record; an output-disabled rule
+    # contributes nothing; every other rule contributes one query per condition.
+    if aborting is None:
+        drops = "drop_detection_item" in core.jdump(sc_eff.get("pipeline") or {})
+        for d, a in zip(sc_eff["documents"], alone):
+            if "ok" not in a:
+                continue
+            qs = a["ok"] if isinstance(a["ok"], list) else [a["ok"]]
+            cond = d["detection"]["condition"]
+            n_cond = len(cond) if isinstance(cond, list) else 1
+            bad = None
+            if a["errors"]:
+                if len(a["errors"]) != 1:
+                    bad = ("one-error-record-per-failing-rule", "records:%d" % len(a["errors"]))
+                elif qs:
+                    bad = ("failing-rule-contributes-no-query", "queries:%d" % len(qs))
+            elif d["title"] in sc_eff.get("disabled", []):
+                if qs:
+                    bad = ("output-disabled-rule-emits-nothing", "queries:%d" % len(qs))
+            elif len(qs) > n_cond or (len(qs) != n_cond and not drops):
+                bad = ("one-query-per-condition", "queries:%d-conditions:%d" % (len(qs), n_cond))
+            if bad and violation is None:
+                violation = {"oracle": bad[0], "kind": bad[1], "got": a, "want": {"rule": d["title"], "conditions": n_cond}}
     n_fail = sum(1 for c in classes if not c.startswith("ok"))
     n_ok = sum(1 for c in classes if c == "ok")
     if n_fail:
@@ -256,7 +280,9 @@ def execute(scenario: dict) -> dict:
     if any(isinstance(d["detection"]["condition"], list) for d in sc_eff["documents"]):
         probes["multi_condition_rule"] = 1
     log = {"got": got, "strict": strict, "alone": alone}
-    if not loaded:
+    if violation is not None:
+        pass
+    elif not loaded:
         violation = {"oracle": "batch-loads-when-every-rule-loads-alone", "kind": "batch-load-failed",
                      "got": got, "want": "loadable"}
     elif aborting is not None:
